@@ -1234,12 +1234,12 @@ func runC03(cfg Config, r *Result) {
 	}
 	// binder programs (harness/c03binders.go): parameters, variadic and `_` parameters, handler parameters, loop variables,
 	// locals, each used or not; as they are and cut / edited by every mutation family (function stubs typed so far)
-	for k := 0; k < cfg.N(300, 6000); k++ {
+	for k := 0; k < cfg.N(300, 3000); k++ {
 		src := genBinderProgram(rng)
 		add(mutCase{src, "binders"})
 		if k%10 == 0 {
 			var ms []mutCase
-			mutate(corpusProg{Src: src}, kinds, rng, cfg.N(4, 30), &ms)
+			mutate(corpusProg{Src: src}, kinds, rng, cfg.N(4, 12), &ms)
 			for _, c := range ms {
 				c.Stream = "binders:" + c.Stream
 				add(c)
